@@ -10,4 +10,4 @@ trap 'git -C /repo worktree remove --force $W >/dev/null 2>&1; rm -rf $W $V' EXI
 P=${SEEDDIR:-/verif/seeded}/$id/patch.diff; [ -f ${SEEDDIR:-/verif/seeded}/$id/patch_on_fixed_head.diff ] && P=${SEEDDIR:-/verif/seeded}/$id/patch_on_fixed_head.diff
 cd $W && git apply -3 $P 2>/dev/null || { echo "PATCH-DOES-NOT-APPLY $id"; exit 2; }
 cp /verif/known_findings.json $V/
-cd /verif && GOSYM_REPO=$W GOSYM_VERIF=$V ./bin/gosym check $chk --tier $tier 2>&1 | grep -v "^  violation" | tail -${4:-6}
+cd /verif && GOSYM_REPO=$W GOSYM_VERIF=$V ${GOSYM_BIN:-./bin/gosym} check $chk --tier $tier 2>&1 | grep -v "^  violation" | tail -${4:-6}
